@@ -18,7 +18,7 @@ LEVEL = "exploration"
 SHARDS = {"quick": 16, "thorough": 16}
 RULE = (
     "The option matrix is enumerated. (A) backend level: config {metadata_path absent/same/different} x {memory_cache_mb absent/0.5/2} x {readonly absent/true/false} x explicit arguments "
-    "{read_only None/True/False} x {memory_cache_mb None/1} x {path None/other} x construction {constructor with config, StorageBackend.create}; (B) cluster/environment level: storage type "
+    "{read_only None/True/False} x {memory_cache_mb None/1/0 (0 switches a configured cache off)} x {path None/other} x {metadata_path None / equal to the data path (switches a configured metadata path off)} x construction {constructor with config, StorageBackend.create}; (B) cluster/environment level: storage type "
     "{filesystem, memory, null} x runner {absent, local, null} x readonly x cache (incl. fractional sizes) x metadata path x source {constructor objects, inline dict, JSON files, YAML file with jinja parameters; for a sample also with a base directory named 'R&D <team> 100%' passed as template parameter} "
     "x 1-3 repositories defining the same cluster name in every priority order, each also rebuilt from Environment.to_dict(); (C) a live environment: every sequence of up to 4 (quick) / 6 (thorough) operations "
     "{resolve cluster c, resolve d, prepend a repository defining c, prepend one defining d, append one defining c, append one defining c and d} after which each name must resolve to the first repository in the current priority order (or to nothing), also after a dump/rebuild. Oracle: differential on behaviour against the effective options computed "
@@ -132,7 +132,9 @@ def probe_runner(cluster, exp_runner, problems, label, dirpath):
 
 def effective_a(pt, d):
     data = os.path.join(d, "argpath") if pt["arg_path"] else os.path.join(d, "cfgpath")
-    if pt["cfg_meta"] == "absent":
+    if pt.get("arg_meta") == "data":
+        meta = data      # explicit argument: metadata next to the data (switches a configured metadata path off)
+    elif pt["cfg_meta"] == "absent":
         meta = data
     elif pt["cfg_meta"] == "same":
         meta = os.path.join(d, "cfgpath")
@@ -144,13 +146,13 @@ def effective_a(pt, d):
 
 
 def points_a():
-    for cfg_meta, cfg_cache, cfg_ro, arg_ro, arg_cache, arg_path, via in itertools.product(
+    for cfg_meta, cfg_cache, cfg_ro, arg_ro, arg_cache, arg_path, via, arg_meta in itertools.product(
             ["absent", "same", "different"], [None, 0.5, 2], [None, True, False], [None, True, False],
-            [None, 1], [False, True], ["ctor", "create"]):
-        if via == "create" and (arg_ro is not None or arg_cache is not None or arg_path):
+            [None, 1, 0], [False, True], ["ctor", "create"], [None, "data"]):
+        if via == "create" and (arg_ro is not None or arg_cache is not None or arg_path or arg_meta):
             continue  # the registry passes the configuration only
         yield {"part": "A", "cfg_meta": cfg_meta, "cfg_cache": cfg_cache, "cfg_ro": cfg_ro, "arg_ro": arg_ro,
-               "arg_cache": arg_cache, "arg_path": arg_path, "via": via}
+               "arg_cache": arg_cache, "arg_path": arg_path, "via": via, "arg_meta": arg_meta}
 
 
 def run_a(pt, scratch):
@@ -173,7 +175,8 @@ def run_a(pt, scratch):
                 st = StorageBackend.create("filesystem", dict(cfg, type="filesystem"))
             else:
                 st = FilesystemStorageBackend(config=cfg, path=os.path.join(d, "argpath") if pt["arg_path"] else None,
-                                              memory_cache_mb=pt["arg_cache"], read_only=pt["arg_ro"])
+                                              memory_cache_mb=pt["arg_cache"], read_only=pt["arg_ro"],
+                                              metadata_path=exp["data"] if pt.get("arg_meta") == "data" else None)
             probe_storage(st, exp, problems, "backend")
             # dump -> rebuild -> same behaviour on the same paths
             dump = json.loads(json.dumps(st.to_dict()))
@@ -187,7 +190,7 @@ def run_a(pt, scratch):
         for sym, msg in problems:
             out.violation("%s  [point %s]" % (msg, json.dumps(pt, sort_keys=True)), symptom=sym, part="A",
                           rebuilt="rebuilt" in msg)
-        nset = sum(1 for k in ("cfg_cache", "cfg_ro", "arg_ro", "arg_cache") if pt[k] is not None) + (pt["cfg_meta"] != "absent") + pt["arg_path"]
+        nset = sum(1 for k in ("cfg_cache", "cfg_ro", "arg_ro", "arg_cache", "arg_meta") if pt.get(k) is not None) + (pt["cfg_meta"] != "absent") + pt["arg_path"]
         out.nontrivial = nset >= 2
         out.labels = ["A:via:" + pt["via"]] + (["A:explicit-override"] if pt["arg_ro"] is not None or pt["arg_cache"] is not None or pt["arg_path"] else [])
         return out
